@@ -288,7 +288,10 @@ where
 {
     log::trace!("transcode {} data to Lua from `{}`", label, path.display());
     let transcode_duration = Timer::now();
-    let value = deserialize_value(content).map_err(E::into)?;
+    let value = deserialize_value(content).map_err(|err| {
+        let error: DarkluaError = err.into();
+        DarkluaError::custom(format!("unable to read `{}`: {}", path.display(), error))
+    })?;
     let expression = to_expression(&value)
         .map(RequiredResource::Expression)
         .map_err(DarkluaError::from);
